@@ -241,12 +241,25 @@ func c19Worker(c *core.Collector, x *Ctx) {
 			c.Sample(map[string]any{"phone": phone, "announced_names": nm})
 		}
 	})
-	// the save happens when the server notices the close: wait until the tree is stable
+	// the save happens when the server notices the close, in the connection's own goroutine: wait until no goroutine of the
+	// attachment server's per-connection loop is left (decided by state, not by a time budget; 120 s watchdog => inconclusive),
+	// then until two snapshots in a row agree
+	quiesced := false
+	for i := 0; i < 4800; i++ {
+		if !goroutineRunning("attachment.(*connection).run") {
+			quiesced = true
+			break
+		}
+		sleepMs(25)
+	}
+	if !quiesced {
+		c.Inconclusive()
+	}
 	var after map[string]snapEntry
 	prev := -1
 	for i := 0; i < 200; i++ {
 		after = snapshot(cwd)
-		if len(after) == prev && i > 3 {
+		if len(after) == prev {
 			break
 		}
 		prev = len(after)
